@@ -260,7 +260,28 @@ def check(run):
 
 
 def _attrs_stripped_by_encoder(P, f):
-    """(variable, attribute) pairs that _encode_ugrid removes from the dataset it returns.
+    """(variable, attribute) pairs removed from the exported dataset by the encoder or by a procedure of its module that it hands the dataset to"""
+    from ..loader import FuncInfo
+    out = set(_attrs_stripped_in(P, f, f.params()[0]))
+    unknown = set(_attrs_stripped_in.unknown)
+    # dataset names in the encoder (the parameter and locals bound to copies of it)
+    dsn = {f.params()[0]}
+    for st in iter_stmts(f.node.body):
+        if isinstance(st, ast.Assign) and isinstance(st.targets[0], ast.Name) and isinstance(st.value, ast.Call) and isinstance(st.value.func, ast.Attribute) and st.value.func.attr in ("copy", "drop_vars") \
+                and isinstance(st.value.func.value, ast.Name) and st.value.func.value.id in dsn:
+            dsn.add(st.targets[0].id)
+    for st in iter_stmts(f.node.body):
+        if isinstance(st, ast.Expr) and isinstance(st.value, ast.Call) and st.value.args and isinstance(st.value.args[0], ast.Name) and st.value.args[0].id in dsn:
+            h = P.resolve_expr(f.module, st.value.func, f)
+            if isinstance(h, FuncInfo) and h.cls is None and h.params():
+                out |= _attrs_stripped_in(P, h, h.params()[0])
+                unknown |= _attrs_stripped_in.unknown
+    _attrs_stripped_by_encoder.unknown = unknown
+    return out
+
+
+def _attrs_stripped_in(P, f, dsname):
+    """(variable, attribute) pairs that function f removes from the dataset named dsname.
 
     Recognised forms (semantic, not textual):
       for V, HS in <module-level dict {var: (attr, ...)}>.items():
@@ -268,7 +289,6 @@ def _attrs_stripped_by_encoder(P, f):
       del ds["var"].attrs["k"]      /     ds["var"].attrs.pop("k"[, ...])"""
     out = set()
     unknown = set()       # variables whose attrs are rewritten in a way that is not understood
-    dsname = f.params()[0]
 
     dsnames = {dsname}
     for st in iter_stmts(f.node.body):
@@ -357,8 +377,11 @@ def _attrs_stripped_by_encoder(P, f):
             recv = st.value.func.value
             if st.value.args and str_const(st.value.args[0]) and is_attrs_of(recv, lambda sl: str_const(sl) is not None):
                 out.add((str_const(recv.value.slice), str_const(st.value.args[0])))
-    _attrs_stripped_by_encoder.unknown = unknown
+    _attrs_stripped_in.unknown = unknown
     return out
+
+
+_attrs_stripped_in.unknown = set()
 
 
 def _stmt_lists(body):
